@@ -81,6 +81,19 @@ def main():
             if verbose and r['status'] == 'inconclusive': print(json.dumps(r['log'], indent=1))
         print('total %.1fs' % (time.time() - t0))
         return rc
+    if a[0] == 'replay':
+        from engine import native
+        rec = json.load(open(a[1]))
+        unit = rec['job'].split('.')[0]
+        gendir = os.path.join(BUILD, 'replay', 'gen')
+        mod, recs = gen_unit(unit, gendir)
+        job = next(j for j in mod.JOBS if j['id'] == rec['job'])
+        print('obligation:', rec['obligation'], '|', rec['description'], '| job', rec['job'])
+        if not job.get('native'):
+            print('no native adapter for this harness; verifier inputs:', json.dumps(rec.get('inputs'))[:2000]); return 2
+        r = native.replay(job, {'trace': rec.get('inputs'), 'desc': rec['description']}, gendir, os.path.join(BUILD, 'replay'), REPO)
+        print(r.get('cmd')); print(r.get('output')); print('status:', r['status'])
+        return 1 if r['status'] == 'reproduced' else 0
     from engine import propcheck
     return propcheck.main(a)
 
